@@ -220,14 +220,17 @@ CHECKS = {
  'C14': dict(text="Partial. Proved (Coq): anything the V2 reader returns from an arbitrary byte string is a complete CRC- and "
                   "trailer-consistent record really present at that position, so a result differing from the published message requires the "
                   "damaged bytes to be a full valid encoding of another message (the residual, unproved premise is that in-place damage does "
-                  "not forge one - a CRC-32C collision); the answer of a read depends only on the bytes of the record read, so calls answered "
+                  "not forge one - a CRC-32C collision; for damage confined to ONE byte, so for every single-bit flip and 1-byte overwrite, "
+                  "this is proved for the CRC-32C of Codec.v: two strings one byte apart have different checksums, and a V2 record "
+                  "damaged in one byte is never read back with its size unchanged - the read fails unless a length field was hit); "
+                  "the answer of a read depends only on the bytes of the record read, so calls answered "
                   "from untouched bytes are unchanged; length fields are guarded by the 64 MiB bound and slices never exceed the file. Tied "
                   "to /repo by a sweep over multi-segment V2 logs with one log file damaged (bit flips, 1-8 byte overwrites, every "
                   "truncation, zero tails; index intact): every Consume/Get/GetByKey/ConsumeByKey/GetByTime result is compared with the "
                   "byte-level reader model (BytesLog.v) and checked: no panic, no message differing from the published one, error when "
                   "the answer would include an overwritten record, unchanged answers for calls independent of the damaged file.",
              ref='6/C14', technique='Coq proof (decoder soundness/extensionality) + exhaustive damage sweep against the byte-level reader model',
-             note="Residual premise crc_detects (no CRC-32C collision produced by the damage) is not proved; memory use of the Go "
+             note="Residual premise crc_detects (no CRC-32C collision produced by the damage) is proved for one-byte damage only; memory use of the Go "
                   "runtime is not modelled. " + COMMON_NOTE),
  'C18': dict(text="Partial. Proved (Coq) for the transition system of Notify.v - Wait/Set/Close cut at every channel operation and "
                   "atomic access, any number of threads, every interleaving, by an invariant preserved by every step: token discipline "
@@ -236,8 +239,9 @@ CHECKS = {
                   "passed the offset the waiter is enabled and returns; it is woken only by a step of Set or Close; immediate return below "
                   "NextOffset; a wait reaching the barrier after Close fails. What a woken ConsumeBlocking returns is Consume at that moment "
                   "(C03). The model is tied to /repo by stepping real goroutines through pause points added to pkg/notify (tag verif): ~3000 "
-                  "schedules (60000 thorough) of 1-3 waiters, 0-2 Set, 0-2 Close with cancellations; the status of every thread afterwards "
-                  "must equal the model's.",
+                  "schedules (60000 thorough) of 1-3 waiters, 0-2 Set, 0-2 Close with cancellations - of parked waiters and, pending until "
+                  "the final select, of waiters still on their way (Notify.xstep, proved to add no behaviour to the base system); the "
+                  "status of every thread afterwards must equal the model's.",
              ref='6/C18', technique='Coq proof (inductive invariant of a small-step model, all interleavings) + pause-point schedules on the real notifier',
              note="Not expressible in the model: atomicity of a Go channel operation and of atomic.Int64, and scheduler fairness (liveness "
                   "is stated as enabledness). " + COMMON_NOTE),
